@@ -255,11 +255,32 @@ let c18_chk t =
       let n1 = ti t in let r1 = tlist t n1 tz in
       (st, ba, r0, r1)) in
   let sortz l = List.sort (fun a b -> compare (int_of_z a) (int_of_z b)) l in
+  (* the samples kept per address (the model's ring buffer), to judge the rings: a member's ring
+     is the bucket of the average of the samples of ITS CURRENT address *)
+  let shadow = ref members_empty in
+  let ring_ok v ba =
+    List.for_all (fun (id, st) ->
+        let same_addr = List.length (List.filter (fun (_, s2) -> int_of_z s2.m_addr = int_of_z st.m_addr) v) in
+        (* judged for members that own their address in the address index (two actors that were
+           at one address at some time share one set of samples and one index entry) *)
+        let owns = List.exists (fun (a, i) -> int_of_z a = int_of_z st.m_addr && int_of_z i = int_of_z id) ba in
+        if same_addr > 1 || not owns then true else
+        let buf = (match mget st.m_addr !shadow.rtts with Some b -> b | None -> []) in
+        match st.m_ring, buf with
+        | None, _ -> true
+        | Some _, [] -> false
+        | Some r, _ ->
+          let avg = fst (Z.div_eucl (sumz buf) (z_of_small (List.length buf))) in
+          (match bucket_of avg ring_buckets Z0 with
+           | Some r' -> int_of_z r = int_of_z r'
+           | None -> true)) v in
   let rec go s ops views allowed ok =
     match ops, views with
     | op :: ops', (v, ba, r0, r1) :: views' ->
       let allowed = allowed && op_allowed s op in
       let s' = spec_step s op in
+      shadow := mstep !shadow op;
+      let ok = ok && ring_ok v ba in
       let m = { states = v; by_addr = ba; rtts = [] } in
       let actors = List.map fst s' @ List.map fst v in
       let ok = ok && List.for_all (fun a -> view_matches m s' a) actors
